@@ -29,7 +29,7 @@ BUDGET = {'quick': {'examples': 500, 'wall': 220}, 'thorough': {'examples': 1200
 ASSUMPTIONS = ['the load listing is not compared between sweep and single run: in sweep mode it is printed once by design',
                'process determinism can only be detected probabilistically (miss probability (1/k!)^3 for k whole-object attachments)']
 LABEL_FLOORS = {'mode-history': 0.5, 'mode-sweep': 0.1, 'mode-process': 0.05, 'freq-dependent-distributed-load': 0.4,
-                'field-between-computes': 0.1, 'returns-to-earlier-frequency': 0.1, 'sources-replaced': 0.12, 'load-added': 0.1, 'same-field-request-again': 0.15}
+                'field-between-computes': 0.1, 'returns-to-earlier-frequency': 0.1, 'sources-replaced': 0.12, 'load-added': 0.1, 'same-field-request-again': 0.15, 'power-level-requested': 0.2}
 
 
 @st.composite
@@ -116,10 +116,13 @@ def case_strategy(draw, big=False):
                         op_[2][0] = op_[2][0] * (1 + 2e-6) + 1e-6
                 ops.append(op_)
             elif k == 'far':
+                # (optionally with a power level and distance for the field in V/m)
+                pw_ = gen.r6(draw(gen.logf(1e-2, 1e4))) if draw(st.integers(0, 2)) == 0 else None
                 ops.append(['far', [gen.r6(draw(st.floats(0, 40))), gen.r6(draw(st.floats(5, 25))), draw(st.integers(1, 4))],
-                            [gen.r6(draw(st.floats(0, 360))), gen.r6(draw(st.floats(10, 90))), draw(st.integers(1, 4))]])
+                            [gen.r6(draw(st.floats(0, 360))), gen.r6(draw(st.floats(10, 90))), draw(st.integers(1, 4))], pw_])
             else:
-                ops.append(['near', [gen.r6(draw(st.floats(-2, 2)) * lam), gen.r6(draw(st.floats(-2, 2)) * lam), gen.r6(draw(st.floats(0.5, 2)) * lam)]])
+                pw_ = gen.r6(draw(gen.logf(1e-2, 1e4))) if draw(st.integers(0, 2)) == 0 else None
+                ops.append(['near', [gen.r6(draw(st.floats(-2, 2)) * lam), gen.r6(draw(st.floats(-2, 2)) * lam), gen.r6(draw(st.floats(0.5, 2)) * lam)], pw_])
 
         for ph_ in range(draw(st.integers(2, 5 if not big else 7))):
             for _ in range(draw(st.sampled_from([0, 1, 1, 2] if ph_ else [0, 0, 1]))):
@@ -238,16 +241,30 @@ def history(case, labels):
             done_fields.append(op)
         if op[0] == 'far':
             seen_field_since_compute = True
-            m.compute_far_field(A(*op[1]), A(*op[2]))
-            m2.compute_far_field(A(*op[1]), A(*op[2]))
+            kwf = {'pwr': op[3], 'dist': 1000.0} if len(op) > 3 and op[3] else {}
+            if kwf:
+                labels.append('power-level-requested')
+            m.compute_far_field(A(*op[1]), A(*op[2]), **kwf)
+            m2.compute_far_field(A(*op[1]), A(*op[2]), **kwf)
             g1, g2 = np.array(m.far_field.gain), np.array(m2.far_field.gain)
             if g1.shape != g2.shape or np.abs(g1 - g2).max() > 1e-9:
                 fails.append(('history:far-field', 'after %s: pattern differs from a fresh model by %.3g dB' % (hist, np.abs(g1 - g2).max())))
                 break
+            # the field itself (V/m or, without a distance, V): the level must not be inherited from earlier requests
+            ea = max(rel(m.far_field.e_theta, m2.far_field.e_theta), rel(m.far_field.e_phi, m2.far_field.e_phi))
+            sc_ = max(np.abs(np.array(m2.far_field.e_theta)).max(), np.abs(np.array(m2.far_field.e_phi)).max(), 1e-300)
+            ea = max(np.abs(np.array(m.far_field.e_theta) - np.array(m2.far_field.e_theta)).max(),
+                     np.abs(np.array(m.far_field.e_phi) - np.array(m2.far_field.e_phi)).max()) / sc_
+            if ea > 1e-9:
+                fails.append(('history:far-field:absolute', 'after %s: the field in V/m differs from a fresh model by %.3g of its maximum' % (hist, ea)))
+                break
         elif op[0] == 'near':
             seen_field_since_compute = True
-            m.compute_near_field(op[1], [1, 1, 1], [1, 1, 1])
-            m2.compute_near_field(op[1], [1, 1, 1], [1, 1, 1])
+            kwn = {'pwr': op[2]} if len(op) > 2 and op[2] else {}
+            if kwn:
+                labels.append('power-level-requested')
+            m.compute_near_field(op[1], [1, 1, 1], [1, 1, 1], **kwn)
+            m2.compute_near_field(op[1], [1, 1, 1], [1, 1, 1], **kwn)
             e = max(rel(m.e_field[0], m2.e_field[0]), rel(m.h_field[0], m2.h_field[0]))
             if e > 1e-12:
                 fails.append(('history:near-field', 'after %s: near field differs from a fresh model by %.3g' % (hist, e)))
